@@ -17,13 +17,13 @@ first = []; later = []
 for f in sorted(glob.glob('/verif/seeded/*/meta.json')):
     m = json.load(open(f)); sid = f.split('/')[-2]
     own = m.get('detected_by', {}).get(m.get('property', sid.split('-')[0]), ' '.join(m.get('detected_by', {}).values()))
-    (later if re.search(r'MISSED|first run exit [02]|first run: exit 0', own) else first).append(sid)
+    (later if re.search(r'MISSED|first run exit [02]|first run: exit 0|not a detection', own) else first).append(sid)
 note = f"""
 Of the {len(first) + len(later)} seeds, {len(first)} were caught by their property's own check as it stood when the seed arrived ({', '.join(first)});
 {len(later)} were not ({', '.join(later)}) and each led to a new, corrected or shared obligation, after which it is caught - the
 "caught by" column says what was missing and what was added (several of these were already caught by a *neighbouring*
 property's check, e.g. the per-position valuation C04.a, and were then shared so that the property's own check sees them).
-Two were not silent passes but exit 2 (C19-1: incomplete replay request; C14-2: absent guard reported as a tool error).
+Six of these were not silent passes but exit 2 - undecided, which is not a detection either: C19-1 (incomplete replay request), C14-2 (absent guard reported as a tool error), C12-4 (abstracted bit operation), C13-4 (unmodelled float literal), C18-3 (unmodelled iterator adaptor), C20-3 (unparsed constant spelling); each exposed a gap of the encoder that was closed.
 No seed remains uncaught. The sub-agents that wrote the seeds saw only the property text and a scratch worktree, never /verif.
 """
 s = re.sub(r'\nOf the \d+ seeds,.*?never /verif\.\n', lambda _: note, s, flags=re.S)
